@@ -90,11 +90,23 @@ def rule_run_exit(ctx):
                           "flag read whose true edge does not lead to the notify callback")
     ctx.floor("should_notify reads in Worker::run", len(loads), 1)
     via = good_loads + cancel_blocks
-    if fn.all_paths_to_return_pass(0, via_nodes=via):
+    # `self.was_canceled = canceled; if canceled { return }`: the flag is set from the sort's result and the run
+    # leaves on the result's true edge — that exit is a cancelled (and marked) one
+    cancel_edges = []
+    for bi, si, s in field_assigns(fn, "was_canceled"):
+        if si == "term" or "use" not in s["rv"]:
+            continue
+        v = fn.expr_of_operand(s["rv"]["use"])
+        if v[0] == "call" and str(v[1]).endswith("par_quicksort"):
+            for gbi in sorted(fn.live):
+                t = fn.blocks[gbi]["term"]
+                if t["k"] == "switch" and fn.expr_of_operand(t["discr"]) == v and (fn.dominates(bi, gbi) or gbi in fn.reach_from(bi)):
+                    cancel_edges.append((gbi, t["otherwise"]))
+    if fn.all_paths_to_return_pass(0, via_nodes=via, via_edges=cancel_edges):
         ctx.ok(site(fn, 0), "every normal exit of the run is cancelled (was_canceled = true) or passes a flag check that notifies")
     else:
         # find an offending return path for the report
-        r = fn.reach_from(0, removed_nodes=via)
+        r = fn.reach_from(0, removed_nodes=via, removed_edges=cancel_edges)
         ret = [x for x in fn.returns if x in r]
         ctx.violation(RUN + "|exit-without-check|1", site(fn, ret[0] if ret else 0),
                       "a completed (non-cancelled) run can return without looking at should_notify: a UI that was told `running` and waits for the notification is never woken")
